@@ -15,7 +15,7 @@ from .logic import Unsupported
 from . import solve
 
 HERE = os.path.dirname(os.path.dirname(os.path.abspath(__file__)))
-CONTRACT_MODULES = ['contracts.c_graph']
+CONTRACT_MODULES = ['contracts.c_graph', 'contracts.c_sanitize']
 
 
 def load_contracts():
